@@ -229,8 +229,16 @@ def gen_case(rng, family=None):
             reg.append(("X", "Y", "Z"))
         rng.shuffle(reg)
         req = rng.choice([["X", "Y", "Z"], ["Z", "Y", "X"], ["Y", "X", "Z"], ["X", "Y"], ["Y", "Z"]])
-        return {"kind": "metrics", "axis_order": axn, "registry": [list(b) for b in reg], "request": req,
-                "op": rng.choice(["get_metric", "integrate", "average"]), "seed": rng.randrange(10**6)}
+        out = {"kind": "metrics", "axis_order": axn, "registry": [list(b) for b in reg], "request": req,
+               "op": rng.choice(["get_metric", "integrate", "average"]), "seed": rng.randrange(10**6)}
+        if rng.random() < 0.3:
+            # only one-axis metrics, three axes requested: a single partition, but the order in which its three
+            # factors are multiplied shows in the dimension order of the product and (generic values) in its last bits
+            singles = [["X"], ["Y"], ["Z"]]
+            rng.shuffle(singles)
+            out.update(registry=singles, generic_values=True,
+                       request=rng.choice([["X", "Y", "Z"], ["Z", "Y", "X"], ["Y", "X", "Z"], ["Z", "X", "Y"]]))
+        return out
     if family == "mwi":
         # a metric that has to be interpolated along two (or three) axes at once to reach the data's position;
         # generic (non-dyadic) values, so that the order of the 1-D interpolations shows in the last bit
@@ -452,6 +460,11 @@ def execute(spec, pi=0):
                     metrics[",".join(b)] = [nm]
                 gs["grid"]["metrics"] = metrics
                 ds = worlds.build_ds(gs)
+                if spec.get("generic_values"):
+                    rgm = np.random.default_rng(spec["seed"] + 1)
+                    for b in spec["registry"]:
+                        nm = "m_" + "".join(b).lower()
+                        ds[nm] = (ds[nm].dims, 0.5 + rgm.random(ds[nm].shape))
                 grid = worlds.build_grid(ds, gs)
                 data = np.random.default_rng(spec["seed"]).integers(1, 9, size=(n["Z"], n["Y"], n["X"])).astype("float64")
                 da = xr.DataArray(data, dims=["zc", "yc", "xc"])
